@@ -679,6 +679,7 @@ class Interp:
             return self.call_libmethod(fv.recv, fv.name, args, kwargs, node)
         if isinstance(fv, LambdaRef):
             e2 = dict(fv.env)
+            e2.update(getattr(fv, "defaults", {}))
             names = [x.arg for x in fv.node.args.args]
             for nm_, val_ in zip(names, args):
                 e2[nm_] = val_
@@ -1641,7 +1642,15 @@ class Interp:
         return out
 
     def e_Lambda(self, node, env):
-        return LambdaRef(node, env)
+        lr = LambdaRef(node, env)
+        # default values are evaluated when the lambda is created (the `lambda x, n=target:` idiom)
+        a = node.args
+        names = [x.arg for x in a.args]
+        lr.defaults = {nm: self.eval(d, env) for nm, d in zip(names[len(names) - len(a.defaults):], a.defaults)} if a.defaults else {}
+        for kw_, d in zip(a.kwonlyargs, a.kw_defaults):
+            if d is not None:
+                lr.defaults[kw_.arg] = self.eval(d, env)
+        return lr
 
     def e_Starred(self, node, env):
         self.err(node, "starred expression outside call")
